@@ -104,6 +104,8 @@ struct Plan19 {
     nested_play: bool,
     hit_limit: bool,
     stop_kind: u8,
+    /// input time of the stop key's press
+    stop_t: u64,
 }
 
 fn plan(c: &DCase) -> Plan19 {
@@ -233,7 +235,7 @@ fn plan(c: &DCase) -> Plan19 {
         let n = recorded.len().saturating_sub(c.trunc as usize);
         recorded.truncate(n);
     }
-    Plan19 { prefix: ins, recorded, t_play, self_play, nested_play, hit_limit, stop_kind }
+    Plan19 { prefix: ins, recorded, t_play, self_play, nested_play, hit_limit, stop_kind, stop_t }
 }
 
 /// (press?, key) items parsed from the Debug rendering of the stored macro
@@ -258,11 +260,18 @@ fn stored_items(sim: &Sim, id: u16) -> Option<Vec<(bool, u16, u64)>> {
     Some(out)
 }
 
-fn feed(sim: &mut Sim, ins: &[Inp], until: u64) {
+/// Feeds the inputs; returns whether the layout still had unhandled events (a pending
+/// tap-hold / tap-dance decision, a non-empty queue) when the input at `probe_t` arrived.
+fn feed(sim: &mut Sim, ins: &[Inp], until: u64, probe_t: u64) -> bool {
     // inputs at time t are given before tick t+1
     let mut i = 0;
+    let mut busy_at_probe = false;
     while sim.ticks < until {
         while i < ins.len() && ins[i].0 <= sim.ticks {
+            if ins[i].0 == probe_t && ins[i].2 {
+                let l = sim.k.layout.b();
+                busy_at_probe = l.waiting.is_some() || !l.queue.is_empty();
+            }
             if ins[i].2 {
                 sim.press(ins[i].1);
             } else {
@@ -272,6 +281,7 @@ fn feed(sim: &mut Sim, ins: &[Inp], until: u64) {
         }
         sim.tick();
     }
+    busy_at_probe
 }
 
 fn seq_of(outs: &[Out]) -> Vec<String> {
@@ -298,7 +308,7 @@ fn judge_case(c: &DCase) -> Verdict {
     };
     let fmt_in = |v: &[Inp]| v.iter().map(|(t, k, p)| format!("{}{}@{t}", if *p { "d:" } else { "u:" }, out_name(*k))).collect::<Vec<_>>().join(" ");
     let describe = |extra: &str| format!("{text}inputs: {}\n{extra}", fmt_in(&p.prefix));
-    feed(&mut sim, &p.prefix, p.t_play);
+    let stop_while_busy = feed(&mut sim, &p.prefix, p.t_play, p.stop_t);
     let mut v = Verdict::pass(false);
     // (iii) recording has ended, by the stop key or by the size limit
     if sim.k.dynamic_macro_record_state.is_some() {
@@ -345,7 +355,7 @@ fn judge_case(c: &DCase) -> Verdict {
         // recorded before the stop action ran - e.g. its own release while a tap-hold decision
         // kept the event queue waiting
         return Verdict::failed(
-            if c.quick_stop && c.sensitive {
+            if stop_while_busy {
                 "dynmacro:recording-differs-from-typed:stop-pressed-while-decision-pending"
             } else if p.hit_limit {
                 "dynmacro:recording-differs-from-typed:size-limit"
@@ -408,13 +418,16 @@ fn judge_case(c: &DCase) -> Verdict {
     if c.pre_hold {
         v.classes.push("key-held-across-start");
     }
+    if stop_while_busy {
+        v.classes.push("stop-pressed-while-decision-pending");
+    }
     if !still.is_empty() {
         v.classes.push("key-held-across-stop");
     }
     if !p.self_play && !p.nested_play {
         // reference: the same history, then the stored events typed at the replay's pace
         let mut r = Sim::new(&text).expect("parsed before");
-        feed(&mut r, &p.prefix, p.t_play);
+        let _ = feed(&mut r, &p.prefix, p.t_play, u64::MAX);
         let n_ref = r.outs.len();
         // the play key is handled in the next tick and the first item is injected in that tick
         r.tick();
